@@ -40,7 +40,7 @@ Proof.
   intros Hw Hwd Hc Hdom Hne. unfold read_one_data, data_section_result.
   fold (wrap_declared l). rewrite Hw, Hwd. cbv zeta.
   pose proof (sniff_twice_spec fhex default_subs c _ Hdom Hne) as Hs.
-  destruct (inspect_twice (body_lines ls p) default_subs) as [sn subs]. cbn [fst] in Hs. subst sn.
+  destruct (inspect_twice DSpace (body_lines ls p) default_subs) as [sn subs]. cbn [fst] in Hs. subst sn.
   cbn [andb negb]. rewrite andb_true_r.
   pose proof (numpy_spec fhex c _ Hdom Hne) as Hnp.
   pose proof (normal_spec fhex fstr subs c _ Hc Hdom Hne) as Hno.
